@@ -3,7 +3,7 @@ import itertools
 
 from hypothesis import strategies as st
 
-from ..runner import Violation, unexpected, digest, guarded
+from ..runner import Violation, unexpected, digest, guarded, REPO
 from ..ref import b58 as R, hashes as H
 from .. import libx, gen
 
@@ -112,6 +112,17 @@ def _check_versioned(case, v, p):
         raise Violation('check/reversion', 'the payload of a version-%d object re-wrapped as version %d prints as %r' % (v, v2, str(o2)[:50]))
     if o.nVersion != v or str(o) != want or bytes(o) != p:
         raise Violation('check/reversion-aliases', 'wrapping an existing object under version %d changed the original (version %r, text %r)' % (v2, o.nVersion, str(o)[:50]))
+    if len(p) in (0, 20, 32, 33) or v in (0, 1, 128, 255):
+        # the version held as one of the caller's integer kinds (an IntEnum member naming the prefix, an int subclass, a bool),
+        # the payload as bytearray / memoryview / a bytes subclass: the same value, the same text
+        for kind, vv in libx.int_kinds(v)[1:]:
+            ok_ = libx.call('from_bytes-version-as-' + kind, B.CBase58Data.from_bytes, p, vv)[1]
+            if str(ok_) != want or ok_.nVersion != v:
+                raise Violation('check/version-as-' + kind, 'from_bytes(payload, <%s %d>) prints as %r, expected %r' % (kind, v, str(ok_)[:50], want[:50]))
+        for kind, pp in libx.spellings(p)[1:]:
+            ok_ = libx.call('from_bytes-payload-as-' + kind, B.CBase58Data.from_bytes, pp, v)[1]
+            if str(ok_) != want or bytes(ok_) != p:
+                raise Violation('check/payload-as-' + kind, 'from_bytes(<%s>, %d) prints as %r, expected %r' % (kind, v, str(ok_)[:50], want[:50]))
     d = libx.call('cbase58data', B.CBase58Data, want)[1]
     if d.nVersion != v or bytes(d) != p or d.to_bytes() != p:
         raise Violation('check/roundtrip', 'text form of (%d, %s) decodes to (%r, %s)' % (v, p.hex()[:40], d.nVersion, bytes(d).hex()[:40]))
@@ -148,7 +159,58 @@ def _check_versioned(case, v, p):
     return {'nt': True, 'evals': n, 'cls': ['versioned'] + ['%s' % k for k in cls], 'digest': digest(want)}
 
 
+_FRESH = r'''
+import sys, threading
+sys.path.insert(0, sys.argv[1])
+sys.setswitchinterval(1e-6)
+import bitcoin.base58 as B
+items = [l.split(":") for l in sys.argv[2].split(",")]
+bad = []
+go = threading.Event()
+def work(k):
+    go.wait()
+    for r in range(40):
+        for s, want in items[k % len(items):] + items[:k % len(items)]:
+            try:
+                got = B.decode(s).hex()
+                got2 = B.encode(bytes.fromhex(want))
+            except Exception as e:
+                got = got2 = "raised " + type(e).__name__ + ": " + str(e)[:60]
+            if got != want or got2 != s:
+                bad.append((s, got, got2))
+                return
+ths = [threading.Thread(target=work, args=(k,)) for k in range(6)]
+for t in ths: t.start()
+go.set()
+for t in ths: t.join()
+print("BAD " + repr(bad[0]) if bad else "OK")
+'''
+
+
+def check_fresh(case):
+    """a FRESH interpreter in which the very first uses of the codec come from six threads at once (whatever the module sets up on
+    first use is set up under contention): every result is the reference result"""
+    import subprocess
+    import sys
+    items = []
+    for i in range(case['n']):
+        b = bytes((i * 37 + j * 11 + 1) % 256 for j in range(1 + (i * 7) % 34))
+        if i % 3 == 0:
+            b = b'\x00' * (i % 4) + b
+        items.append('%s:%s' % (R.encode(b), b.hex()))
+    for rnd in range(case.get('rounds', 3)):
+        out = subprocess.run([sys.executable, '-B', '-c', _FRESH, REPO, ','.join(items)], capture_output=True, text=True, timeout=300)
+        line = (out.stdout.strip().splitlines() or [''])[-1]
+        if out.returncode != 0 or not line.startswith('OK'):
+            if line.startswith('BAD'):
+                raise Violation('fresh-process-threads', 'first uses of decode()/encode() from six threads in a fresh interpreter: %s' % line[:200])
+            raise Violation('fresh-process-threads/crash', 'fresh interpreter rc=%d: %s' % (out.returncode, (out.stderr or out.stdout)[-300:]))
+    return {'nt': True, 'evals': case['n'] * 40 * 6, 'cls': ['fresh-threads']}
+
+
 def check_case(case):
+    if case.get('kind') == 'fresh':
+        return check_fresh(case)
     k = case['kind']
     if k == 'bytes':
         return check_bytes(bytes.fromhex(case['b']))
@@ -226,6 +288,9 @@ def t_exhaustive(ctx):
 
 def t_versions(ctx):
     """all 256 versions x payload lengths 0..40"""
+    if ctx.shard == 0:
+        ctx.run({'kind': 'fresh', 'n': 24, 'rounds': 3 if ctx.quick else 12})
+        ctx.exhaustive.append('fresh interpreters whose first codec calls come from six threads at once (24 strings)')
     allf = not ctx.quick
     for v in ctx.my(range(256)):
         for L in range(0, 41):
